@@ -283,7 +283,7 @@ func soloDecode(r *report, w *world, data []byte, name string, s *stream, useMod
 		if err != nil {
 			return nil, impl, model, err
 		}
-		if r != nil && impl.observable() != model.observable() {
+		if r != nil && impl.observableMasked() != model.observableMasked() {
 			r.corrFail("model_vs_impl_solo", fmt.Sprintf("model and implementation differ on a file decoded alone in one read (%s)\n    impl : %.400s\n    model: %.400s", name, impl.observable(), model.observable()),
 				ioCase{Entry: "D", Hex: hexs(data), Corrupt: -1, Cut: -1, Part: ioSched{Family: "whole"}, Names: []string{name}})
 		}
@@ -373,7 +373,7 @@ func (c *c10Ctx) runCase(in *ioInput, entry string, part ioSched) bool {
 		}
 		return ic
 	}
-	if useModel && impl.observable() != model.observable() {
+	if useModel && impl.observableMasked() != model.observableMasked() {
 		r.corrFail("model_vs_impl_"+entry, fmt.Sprintf("model and implementation differ (entry %s, partition %s)\n    impl : %.500s\n    model: %.500s", entry, part.Family, impl.observable(), model.observable()), rep())
 	}
 	judgeC10(r, in, entry, part, impl, rep)
